@@ -243,7 +243,15 @@ class chunks(object):
                                                      (self.raBounds[i][self.nRa[i]] - self.raBounds[i][0])))
             raChunkMax[i-decChunkMin] = raChunkMin[i-decChunkMin]
             if raChunkMin[i-decChunkMin] < 0 or raChunkMin[i-decChunkMin] > self.nRa[i]-1:
-                raise PydlutilsException("raChunkMin out of range in chunks.getbounds().")
+                #
+                # Outside the RA range of this slice, which extends by more
+                # than the margin beyond every point the chunks were made
+                # for: no chunk of this slice (empty range).  The point may
+                # still belong to chunks of the other slices.
+                #
+                raChunkMin[i-decChunkMin] = 0
+                raChunkMax[i-decChunkMin] = -1
+                continue
             #
             # Set minimum and maximum bounds of ra
             #
